@@ -11,6 +11,7 @@ mod net;
 mod rng;
 mod runner;
 mod sem;
+mod syn;
 mod world;
 
 use runner::{RunConfig, Tier};
